@@ -115,3 +115,25 @@ pub(crate) static UNION_NULL_LONG_DOUBLE: SchemaNode<'static> = SchemaNode::Unio
 	variants: const_vec(&VARIANTS_NULL_LONG_DOUBLE),
 	per_type_lookup: const_lookup([None; N_KEYS]),
 });
+
+// ---- static record node:  record R { a: long, b: ["null","long"], c: long }   (empty name table)
+static FIELDS_ABC: [RecordField<'static>; 3] = [
+	RecordField { name: const_string(b"a"), schema: NodeRef::from_static(&N_LONG) },
+	RecordField { name: const_string(b"b"), schema: NodeRef::from_static(&UNION_NULL_LONG) },
+	RecordField { name: const_string(b"c"), schema: NodeRef::from_static(&N_LONG) },
+];
+pub(crate) static RECORD_ABC: SchemaNode<'static> = SchemaNode::Record(Record {
+	fields: const_vec(&FIELDS_ABC),
+	name: anon_name(),
+	per_name_lookup: empty_map(),
+});
+pub(crate) fn record_of(node: &'static SchemaNode<'static>) -> &'static Record<'static> {
+	match node {
+		SchemaNode::Record(r) => r,
+		_ => unreachable!(),
+	}
+}
+
+
+pub(crate) static NODES_ARRAY_LONG: [SchemaNode<'static>; 2] =
+	[SchemaNode::Array(NodeRef::from_static(&N_LONG)), SchemaNode::Long];
